@@ -289,10 +289,15 @@ class Hugr(Mapping[Node, NodeData], Generic[OpVarCov]):
         parent = self[node].parent
         if parent:
             self[parent].children.remove(node)
-        for inp, _ in self.incoming_links(node):
-            self._links.delete_right(_SubPort(inp))
-        for out, _ in self.outgoing_links(node):
-            self._links.delete_left(_SubPort(out))
+        # remove every link of every port (all sub-offsets), in both directions
+        for offset in range(self.num_in_ports(node)):
+            in_sub = _SubPort(node.inp(offset))
+            while in_sub in self._links.bck:
+                self._delete_sub_link(self._links.bck[in_sub])
+        for offset in range(self.num_out_ports(node)):
+            out_sub = _SubPort(node.out(offset))
+            while out_sub in self._links.fwd:
+                self._delete_sub_link(out_sub)
 
         weight, self._nodes[node.idx] = self._nodes[node.idx], None
 
